@@ -420,15 +420,16 @@ def cycles_facts(chk):
         return ':'.join(str(x) for x in xs)
 
     def run():
-        inherited = [[], [7], [7, 12]][eng.choose(3, 'inherited REDO_CYCLES')]
+        # ids are decimal strings: include ids that are substrings / prefixes / suffixes of one another
+        inherited = [[], [7], [7, 12], [21], [112, 5]][eng.choose(5, 'inherited REDO_CYCLES')]
         w = EnvWorld(eng, {'REDO_CYCLES': [ord(c) for c in ids_str(inherited)]} if inherited else {})
         eng.world = w
         st.update(w=w, inherited=inherited)
-        addid = [None, 7, 12, 31][eng.choose(4, 'lock id added by this job')]
+        addid = [None, 7, 12, 31, 2, 1][eng.choose(6, 'lock id added by this job')]
         st['added'] = addid
         if addid is not None:
             eng.call('cycles::add::<String>', [Vec(list(str(addid).encode()), 'String')], None, None)
-        probe = [7, 12, 31, 1, 3][eng.choose(5, 'lock id probed')]
+        probe = [7, 12, 31, 1, 3, 2, 21][eng.choose(7, 'lock id probed')]
         st['probe'] = probe
         # through the Lock API: check must come before fcntl
         lm = dbmodel.mk(eng, 'LockManager', file=Opaque('fs::File', 'locks'), locks=Struct('RefCell', [Map('HashSet'), 0]))
@@ -459,8 +460,10 @@ def cycles_facts(chk):
         elif not should_fail and not touched:
             bad = 'lock attempt on a free id never reaches fcntl'
         if bad:
-            return {'role': 'cycles:' + ('missed' if should_fail else 'spurious'), 'kind': 'none', 'what': 'cycle detection: ' + bad,
-                    'witness': {'inherited': st['inherited'], 'added': st['added'], 'probe': st['probe']}}
+            return {'role': 'cycles:' + ('missed' if should_fail else 'spurious'), 'kind': 'cycles', 'what': 'cycle detection: ' + bad,
+                    'witness': {'inherited': st['inherited'], 'added': st['added'], 'probe': st['probe'],
+                                'line': '%s %s %d' % (ids_str(st['inherited']) or '-', st['added'] if st['added'] is not None else '-', st['probe'])},
+                    'expect_native': 'CYCLIC' if should_fail else 'FREE'}
         return None
 
     chk.explore('cycles::add/check and Lock::{try_lock,wait_lock}', run, judge)
@@ -555,9 +558,16 @@ def ifcreate_always_facts(chk):
                 bad = 'no committed m-edge to //ALWAYS'
             elif ch is None or eng.check(ch != R):
                 bad = '//ALWAYS is not stamped as changed in this run'
+            elif w.cell(1, 'stamp') is None or tuple(w.cell(1, 'stamp')) != tuple(S_MISSING):
+                # with a NULL stamp the pseudo file is "never built": a target that depends on it stays dirty even after it was
+                # rebuilt in this run, i.e. it is rebuilt once per dependent instead of once per run
+                bad = '//ALWAYS stamp is %r after redo-always (must be the "missing" stamp, else dependents are rebuilt more than once per run)' % (w.cell(1, 'stamp'),)
             chk.goal('always: reached')
         if bad:
-            return {'role': 'ifcreate-always:' + bad.split(' ')[0], 'kind': 'none', 'what': bad, 'witness': {}}
+            c = {'role': 'ifcreate-always:' + bad.split(' ')[0], 'kind': 'none', 'what': bad, 'witness': {}}
+            if st['which'] == 1:
+                c.update(kind='scenario', files=orchestration.ALWAYS_FILES, script=orchestration.ALWAYS_SCRIPT, violated='always_more_than_once')
+            return c
         return None
 
     chk.explore('redo-ifcreate / redo-always record the right edge', run, judge)
@@ -626,7 +636,16 @@ def stamp_facts(chk):
 
 
 def _install_print(eng):
-    eng.summaries['_print'] = lambda e, ci, a, sp: (e.world.printed.append(a[0]), UNIT)[1]
+    def _print(e, ci, a, sp):
+        # render now: the arguments borrow locals that the caller's loop overwrites
+        try:
+            from mirsym.summaries.core import format_arguments
+            items = format_arguments(e, deref_all(a[0]))
+            e.world.printed.append(bytes(items).decode('latin-1') if all(isinstance(x, int) for x in items) else None)
+        except Unsupported:
+            e.world.printed.append(None)
+        return UNIT
+    eng.summaries['_print'] = _print
     eng.summaries['io::_print'] = eng.summaries['_print']
     eng.summaries['print::_print'] = eng.summaries['_print']
 
@@ -651,7 +670,21 @@ def ood_facts(chk, nfiles=2):
         snap = depscheck.snapshot(w)
         st['snap'] = snap
         install_cmd_stubs(eng, R)
-        r = eng.call('ood::run', [], None, None)
+        # record what the kernel answers for each file redo-ood asks about (the real body runs; the wrapper only listens)
+        st['verdicts'] = []
+        body_name = eng.parse_callee('redo::is_dirty').target or eng.parse_callee('is_dirty').target
+
+        def listen(e, ci, a, sp):
+            r = e.run_body(e.body(body_name), a)
+            if r.var == 'Ok':
+                fid = dbmodel.file_struct_fields(e, a[1])['id']
+                st['verdicts'].append((e.concrete(fid, 'file id'), depscheck.real_verdict(e, r)))
+            return r
+        eng.stubs[body_name] = listen
+        try:
+            r = eng.call('ood::run', [], None, None)
+        finally:
+            eng.stubs.pop(body_name, None)
         eng.drop_value  # (ptx is dropped inside run: rollback)
         return r
 
@@ -681,7 +714,30 @@ def ood_facts(chk, nfiles=2):
                             continue
                         bad = 'row %d column %s differs after redo-ood: %r -> %r' % (rid, col, v0, v)
         if bad:
-            return {'role': 'ood:' + bad.split(' ')[0], 'kind': 'none', 'what': bad, 'witness': {}}
+            return {'role': 'ood:' + bad.split(' ')[0], 'kind': 'scenario', 'what': bad, 'witness': {},
+                    'files': orchestration.OOD_FILES, 'script': orchestration.OOD_SCRIPT, 'violated': 'ood_changes_db'}
+        # listing: exactly the targets for which the kernel (its verdict is decided against the reference semantics by the
+        # "is_dirty == reference" obligation) answered something other than Clean -- Dirty *and* NeedTargets
+        names = printed_names(w)
+        if names is not None:
+            for fid, verdict in st['verdicts']:
+                nm = bytes(w.files[fid]['name']).decode()
+                chk.goal('ood: a target that needs a checksummed dependency first is met', isinstance(verdict, list))
+                want = verdict != CLEAN and not isinstance(verdict, tuple)
+                if want != (nm in names):
+                    m = model_of(eng, w, R, ids)
+                    return {'role': 'ood:%s:%s' % ('not-listed' if want else 'listed', depscheck.kind_of(verdict)), 'kind': 'scenario',
+                            'what': 'redo-ood %s %s although the dirtiness check answers %s for it' % (
+                                'does not list' if want else 'lists', nm, fmt_verdict(verdict)),
+                            'witness': {'model': m, 'printed': sorted(names)},
+                            'files': orchestration.STAMP_FILES, 'script': orchestration.OOD_LIST_SCRIPT, 'violated': 'ood_omits_stamped'}
         return None
 
-    chk.explore('redo-ood leaves the state untouched', run, judge)
+    chk.explore('redo-ood leaves the state untouched and lists what will be rebuilt', run, judge)
+
+
+def printed_names(w):
+    """the lines redo-ood printed (None if a formatted argument is not concrete)"""
+    if any(x is None for x in w.printed):
+        return None
+    return set(x.strip() for x in w.printed)
